@@ -205,6 +205,20 @@ let env_op (e : float env) (op : sx) : sx =
        | Err k -> rerr k)
   | _ -> failwith ("unknown env op " ^ show op)
 
+(* ---- tempo conversion / metrize *)
+let rfloats (r : float list res) : sx = match r with Ok l -> L [A "ok"; L (List.map sf l)] | Err k -> rerr k
+let tempo_of (x : sx) : float ntempo =
+  match x with
+  | L [A "C"; b] -> TConst (fl b)
+  | L (A "J" :: _) -> TTraj (penv x)
+  | _ -> failwith "tempo expected"
+let rec ttree (x : sx) : float tev =
+  match x with
+  | L [A "L"; d; tp] -> TLeaf (zi d, tempo_of tp)
+  | L (A "S" :: tp :: kids) -> TSeq (tempo_of tp, List.map ttree kids)
+  | L (A "P" :: tp :: kids) -> TSim (tempo_of tp, List.map ttree kids)
+  | _ -> failwith "tempo tree expected"
+
 let eval (x : sx) : sx =
   match x with
   | L [A "dur"; t] -> L [A "ok"; sz (dur (tree t))]
@@ -221,6 +235,14 @@ let eval (x : sx) : sx =
            | Ok e -> go e r (L [A "ok"; stree e] :: acc)
            | Err k -> List.rev (L [A "err"; A (err_name k)] :: acc)) in
       L (A "hist" :: go (tree t) ops [])
+  | L (A "convert" :: tp :: trees) ->
+      (* a history of conversions on one converter *)
+      let senv = seconds_env fnum (penv tp) in
+      (match convert_history fnum senv [] (List.map tree trees) with
+       | Ok ls -> L (A "ok" :: List.map (fun l -> L (List.map sf l)) ls)
+       | Err k -> rerr k)
+  | L [A "convert1"; tp; t] -> rfloats (convert fnum (seconds_env fnum (penv tp)) Z0 (tree t))
+  | L [A "metrize"; t] -> rfloats (metrize fnum (ttree t))
   | L (A "envq" :: e :: qs) -> let e = penv e in L (A "envq" :: List.map (env_query e) qs)
   | L [A "envop"; e; op] -> env_op (penv e) op
   | L [A "of_points"; L pts] ->
